@@ -90,7 +90,21 @@ def _is_builder_by_name(an, fn) -> bool:
         return True
     if top.cls is None and top.name in ("validator", "instance_method", "make_type"):
         return True
+    # a registering decorator of the same shape as those: a module-level factory that returns its nested function, which takes
+    # the decorated function as its only parameter and hands it back unchanged (applied while the schema is being defined)
+    if top.cls is None and fn.parent is top and len(fn.positional_params) == 1 and isinstance(fn.node, ast.FunctionDef):
+        p0 = fn.positional_params[0]
+        rets_inner = [x for x in ast.walk(fn.node) if isinstance(x, ast.Return)]
+        rets_outer = [x for x in top.node.body if isinstance(x, ast.Return)]
+        if rets_inner and all(isinstance(x.value, ast.Name) and x.value.id == p0 for x in rets_inner) \
+                and rets_outer and all(isinstance(x.value, ast.Name) and x.value.id == fn.name for x in rets_outer):
+            return True
     if top.cls is not None and top.cls.is_subclass_of(Base) and top.name.startswith("_create_helper"):
+        return True
+    # a class-level registration API (`@classmethod def register_x(cls, ...)`, like ConfigFormat.register) that nothing in the
+    # package calls: it is run by the application while it sets the library up, not by a configuration
+    if top is fn and fn.cls is not None and isinstance(fn.node, ast.FunctionDef) and any(
+            isinstance(d, ast.Name) and d.id == "classmethod" for d in fn.node.decorator_list) and not an.callers(fn):
         return True
     return False
 
@@ -190,6 +204,15 @@ def check_fresh_defaults(ctx):
                     if k == "expr" and fresh_leaf(leaf):
                         continue
                     if k == "expr" and isinstance(leaf, ast.Call):
+                        # what matters is where the *declared default* can end up: a value computed from something else (the
+                        # validated environment variable) is not the schema's object
+                        at_ = sp.where.get(id(leaf)) or n
+                        from_declared = any(is_declared(x, at_) or (isinstance(x, ast.Name) and any(
+                            k2 == "expr" and isinstance(p2, ast.AST) and any(is_declared(y, None) for y in ast.walk(p2))
+                            for k2, p2 in sp.sources(x, at_))) for a_ in list(leaf.args) + [kw_.value for kw_ in leaf.keywords] for x in ast.walk(a_)
+                            if isinstance(x, (ast.Name, ast.Attribute)))
+                        if not from_declared and not (isinstance(leaf.func, ast.Attribute) and is_declared(leaf.func.value, at_)):
+                            continue
                         ok, why = False, "default comes from %s, which does not build a new object" % ast.unparse(leaf)[:60]
                     else:
                         ok, why = False, ("the declared default object itself (%s) can be stored in the configuration: every configuration of the "
